@@ -575,7 +575,7 @@ def adjustBySuffixG (st : SuffixStyle) (si : SuffixInfo) (a : Adjust) : Adjust :
           else (a, delta)
         else (a, delta)
     else (a, 0)
-  { a with hour := (a.hour + delta).emod 24 }
+  { a with hour := (a.hour + delta) % 24 }
 
 /-- English as found: lunch rule, no closing `else` -/
 def enSuffixStyle (repaired : Bool) : SuffixStyle := { simple := false, lunch := true, elsePm := repaired }
@@ -735,6 +735,87 @@ def mergeDateAndTime (dateSlot timeSlot : Slot) (pmTime amTime : Bool) : Except 
       .ok { success := true, timex := dateSlot.timex ++ timeStr, comment := comment, future := f, past := p }
     | _, _ => .error "ValueError"
   | _, _ => .ok {}
+
+/-! ## `ChineseTimeParser` (digit and 汉字 clock times; `handle_less` — "差五分十点" — is not modelled) -/
+
+structure ZhCfg where
+  /-- `ChineseDateTime.TimeNumberDictionary` (one-character keys) -/
+  numbersMap : List (Str × Nat)
+  /-- `ChineseDateTime.TimeLowBoundDesc` -/
+  lowBound : List (Str × Nat)
+  /-- Variant switch: `true` = the code as found, `pack_time_result` comments every description-less time `ampm`
+  (finding `zh-ampm-any-hour`); `false` = guarded like `BaseTimeParser` (`0 < hour <= 12`). -/
+  ampmAnyHour : Bool := true
+
+/-- `TimeResolutionUtils.match_to_value(only_digit_match, numbers_map, source)` -/
+def zhMatchToValue (u : Uni) (cfg : ZhCfg) (s : Str) : Except String Int :=
+  if blank u s then .ok (-1)
+  else match s with
+    | [] => .ok (-1)
+    | c0 :: _ =>
+      if (u.digitVal c0).isSome then intOf u s     -- `regex.match(r'\d+', source)` then `int(source)`
+      else if s.length = 1 then
+        match lookup cfg.numbersMap s with
+        | some v => .ok v
+        | none => .error "KeyError"
+      else
+        let step (acc : Except String (Int × Nat)) (ch : Nat) : Except String (Int × Nat) := do
+          let (value, index) ← acc
+          if ch = 21313 then pure (value * 10, index + 1)        -- '十'
+          else match lookup cfg.numbersMap [ch] with
+            | none => throw "KeyError"
+            | some v => if index = 0 then pure (value * v, index + 1) else pure (value + v, index + 1)
+        (s.foldl step (.ok (1, 0))).map (·.1)
+
+/-- first elements of the `named_entity` lists (`''` when absent) -/
+structure ZhGroups where
+  hour : Str := []
+  min : Str := []
+  sec : Str := []
+  quarter : Str := []
+  half : Str := []
+  daydesc : Str := []
+deriving Repr, Inhabited
+
+/-- `handle_digit` (`chinese = false`) / `handle_chinese` (`chinese = true`): (hour, minute, second), `-1` = absent -/
+def zhHandle (u : Uni) (cfg : ZhCfg) (chinese : Bool) (g : ZhGroups) : Except String (Int × Int × Int) := do
+  let hour ← zhMatchToValue u cfg g.hour
+  if chinese then
+    let quarter ← zhMatchToValue u cfg g.quarter
+    let minute ← (if !g.half.isEmpty then pure 30 else if quarter ≠ -1 then pure (quarter * 15) else zhMatchToValue u cfg g.min)
+    let second ← zhMatchToValue u cfg g.sec
+    return (hour, minute, second)
+  else
+    let minute ← zhMatchToValue u cfg g.min
+    let second ← zhMatchToValue u cfg g.sec
+    return (hour, minute, second)
+
+/-- `pack_time_result(extra, time_result, reference)` (with `add_description`) -/
+def zhPackTime (u : Uni) (cfg : ZhCfg) (g : ZhGroups) (t : Int × Int × Int) (ref : DT) : Except String Res :=
+  let (hour0, minute0, second0) := t
+  let noDesc := blank u g.daydesc
+  -- add_description
+  let hourT : Int :=
+    if noDesc then hour0
+    else match lookup cfg.lowBound g.daydesc with
+      | some lb => if hour0 < lb then hour0 + 12 else hour0
+      | none => hour0
+  let comment := if noDesc && (cfg.ampmAnyHour || (0 < hourT && hourT ≤ 12)) then sAmPm else []
+  let floor0 (x : Int) : Int := if x > 0 then x else 0
+  let hour := floor0 hourT
+  let timex : Str :=
+    if hourT ≥ 0 then
+      (84 :: fmtD 2 hourT) ++ (if minute0 ≥ 0 then sColon ++ fmtD 2 minute0 ++ (if second0 ≥ 0 then sColon ++ fmtD 2 second0 else []) else [])
+    else [84]
+  let hour := if hour = 24 then 0 else hour
+  match safeCreateFromMinValue ref.y ref.m ref.d hour (floor0 minute0) (floor0 second0) with
+  | none => .error "ValueError"
+  | some v => .ok { success := true, timex := timex, comment := comment, future := v, past := v }
+
+/-- Chinese time entity: `handle_*` → `pack_time_result` → `ChineseTimeParser.parse` → `_date_time_resolution` -/
+def resolveTimeZh (u : Uni) (cfg : ZhCfg) (chinese : Bool) (g : ZhGroups) (ref : DT) :
+    Except String (Option (List Value)) := do
+  dateTimeResolution u (toSlot .time (← zhPackTime u cfg g (← zhHandle u cfg chinese g) ref))
 
 /-! ## Compositions used by the properties -/
 
